@@ -57,6 +57,9 @@ structure Req where
   -- (key pair number in the observer's ring, algorithm); `curKey = -1`: not recorded (lines of older streams)
   curKey : Int := -1
   curAlg : String := ""
+  -- when the signing key changed INSIDE the token-issuing request (between two of its storage calls): the further keys (key
+  -- pair, algorithm) that were the provider's current signing key at some moment of that request (empty otherwise)
+  alsoCur : List (Int × String) := []
   deriving Repr, Inhabited
 
 /-- user claims a scope entitles to -/
@@ -100,9 +103,12 @@ def filledClaimsOf (scope : String) : List String :=
 def expectedClaims (scopes : List String) : List String := scopes.flatMap filledClaimsOf
 
 /-- "signed with the provider's current signing key": the key pair that made the signature is the one the storage returns
-    for THIS issuance, used with the algorithm that key specifies -/
+    for THIS issuance, used with the algorithm that key specifies.  When the key changed while the request was being served,
+    "current" is any ONE key that was current at some moment of the request: the signature's key pair AND the header's algorithm
+    must belong to the same such key (the binding of at_hash / c_hash to that header algorithm and the verification against the
+    key set published when the answer arrives are separate clauses of `judge`) -/
 def signedWithCurrent (r : Req) (signer : Int) (alg : String) : Bool :=
-  r.curKey == -1 || (signer == r.curKey && alg == r.curAlg)
+  r.curKey == -1 || (signer == r.curKey && alg == r.curAlg) || r.alsoCur.any (fun k => signer == k.1 && alg == k.2)
 
 def judge (r : Req) (o : Obs) : Option String :=
   (if o.hasIDToken then
